@@ -164,5 +164,5 @@ View == <<vars, scr, nreg>>
 
 \* generation: when a behaviour has issued MaxTop operations and everything has come to rest, print it
 Quiescent == (\A g \in Procs : stack[g] = <<>>) /\ Tasks = {}
-Emit == ~(MaxTop > 0 /\ Len(hist) = MaxTop /\ Quiescent) \/ PrintT(ToJson(hist))
+Emit == ~(MaxTop > 0 /\ Len(hist) = MaxTop /\ Quiescent) \/ PrintT(ToJson([cfg |-> cfg, hist |-> hist]))
 =============================================================================
